@@ -31,7 +31,7 @@ type caseA struct {
 	Body       string   `json:"body"`    // default, none, big, chunked
 	Defect     string   `json:"defect"`
 	Arg        int      `json:"arg"`
-	Short      bool     `json:"short"` // declare the body length but send only half of it
+	Short      bool     `json:"short"`          // declare the body length but send only half of it
 	Proc       bool     `json:"proc,omitempty"` // send to a real gateway process (long-lived fixture, no valid twin is sent)
 	// free-form additions so that routes missing from the catalogue are reached too
 	ExtraQuery []s3c.KV `json:"extra_query,omitempty"`
@@ -61,7 +61,7 @@ func secretOf(access string) (string, bool) {
 var defects = []string{"no-auth", "empty-auth", "malformed", "unknown-key", "wrong-secret", "sig-digit", "sig-zero",
 	"alter-header", "dup-header", "alter-query", "alter-path", "alter-payload", "payload-hash", "date-skew", "scope-date", "scope-region",
 	"scope-service", "scope-term"}
-var presignDefects = []string{"expired", "date-future", "expires-altered", "sig-digit", "sig-zero", "alter-query", "alter-path", "param-missing",
+var presignDefects = []string{"expired", "date-future", "value-delims", "expires-altered", "sig-digit", "sig-zero", "alter-query", "alter-path", "param-missing",
 	"unknown-key", "wrong-secret", "scope-region"}
 
 // buildValid returns the signed, undamaged request.
@@ -82,6 +82,8 @@ func buildValid(fx *cat.Fixture, c caseA, now time.Time) (*s3c.Req, *cat.Entry, 
 	}
 	o := s3c.SignOpt{Creds: creds(c.Caller), Region: gw.Region, Time: now}
 	if c.Presign {
+		// as the AWS SDKs do: the operation's name rides along as a parameter no handler looks at
+		r.Query = append(r.Query, s3c.KV{K: "x-id", V: e.Name})
 		o.Presign, o.Expires = true, 300
 		r.Sign(o)
 		return r, e, nil
@@ -182,6 +184,22 @@ func damage(r *s3c.Req, c caseA, now time.Time) {
 		case "date-future":
 			// dated ahead of the clock by more than the tolerated skew: the validity window has not begun
 			represign(cr, now.Add(time.Duration(1+c.Arg%9000)*time.Hour), 300, gw.Region)
+		case "value-delims":
+			// the value of a signed parameter now ends in a character that delimits something in a URL (sent
+			// percent-encoded, as a value), and another parameter follows it: a different URL than the signed one
+			var rest []s3c.KV
+			var xid s3c.KV
+			for _, kv := range r.Query {
+				if kv.K == "x-id" {
+					xid = kv
+				} else {
+					rest = append(rest, kv)
+				}
+			}
+			xid.K = "x-id"
+			xid.V += []string{"#", "&", "=", "+", "%", ";", "?", "#x"}[c.Arg%8]
+			extra := []s3c.KV{{K: "tagging", V: ""}, {K: "acl", V: ""}, {K: "versionId", V: "x"}, {K: "uploads", V: ""}, {K: "policy", V: ""}}[(c.Arg/8)%5]
+			r.Query = append(append(rest, xid), extra)
 		case "expires-altered":
 			qset("X-Amz-Expires", fmt.Sprint(301+c.Arg%100000))
 		case "sig-digit":
